@@ -4,10 +4,11 @@ import core
 import pipeline
 
 ID = "C06"
-LEAN_MODULES = ["KaVerif.Props.C06"] + pipeline.LEAN_MODULES
-GEN = ["Exec", "Registry", "Units", "Tokens"]
+LEAN_MODULES = ["KaVerif.Props.C06", "KaVerif.Props.C06Raises"] + pipeline.LEAN_MODULES
+GEN = ["Exec", "Raises", "Registry", "Units", "Tokens"]
 THEOREMS = ["KaVerif.C06_escape_iff", "KaVerif.C06_stream_discipline", "KaVerif.C06_tables", "KaVerif.C06_no_escape_current",
-            "KaVerif.C06_caret", "KaVerif.C06_commands"] + pipeline.THEOREMS
+            "KaVerif.C06_caret", "KaVerif.C06_commands", "KaVerif.C06_raise_sites_covered", "KaVerif.C06_no_unargued_leak",
+            "KaVerif.C06_argued_exist"] + pipeline.THEOREMS
 RULE = ("(i) every registered function name x every tuple of value kinds up to arity 2 (arity 3 sampled) and every operator x every "
         "pair of kinds (12 kinds: int, fraction, float, lazy, quantity, array, interval, instant, string, random variable, event, "
         "plot; representative values incl. 0, negatives, empty array, month ends); (ii) token soups; (iii) arbitrary character "
@@ -18,11 +19,14 @@ RULE = ("(i) every registered function name x every tuple of value kinds up to a
 ASSUMPTIONS = ["'promptly' is a 4 s watchdog per input; inputs whose literals/exponents/factorial arguments/range lengths exceed 10^6 are "
                "outside the property's hang clause and a timeout there is not reported",
                "matplotlib is replaced by a recording stub (what the plotting library does is outside the model)",
-               "memory exhaustion cannot be exhibited"]
+               "memory exhaustion cannot be exhibited",
+               "three defensive raises are argued unreachable by name in Props/C06Raises.lean (probability.eval_probability 'this is a bug', "
+               "tokens.Token.meta missing key, utils.erfinv |z| > 1); every other raise statement of the source is covered by kernel decide "
+               "over the table regenerated from the ast (the call graph of the containment analysis is by name, dynamic calls count as leaks)"]
 LEVEL_TEXT = ("PARTIAL. Machine-checked (Lean 4): the try/except structure of execute()/eval_parse_tree is regenerated from the source "
               "(ast) and, for EVERY behaviour of the four stages, execute lets a class escape iff the try around the raising stage does "
               "not list it; otherwise the outcome is status 0 with output only or status 1 with diagnostics only; the generated tables "
-              "catch every exception class Ka raises on purpose, convert ZeroDivisionError/OverflowError raised during evaluation, and the "
+              "catch the class of EVERY raise statement in the source (table of all raise sites regenerated from the ast, with the stage each runs in, local handlers, declared base classes and a containment analysis), convert ZeroDivisionError/OverflowError raised during evaluation, and the "
               "CLI fast path exits with that status; the position marker stands under input position `index` for every input and index; "
               "the % command dispatcher is total (bare % included). NOT provable here: which host exceptions CPython's library calls "
               "raise inside the function bodies, wall-clock promptness — decided by the exhaustive kinds x functions sweep, fuzzing and "
